@@ -19,7 +19,6 @@ NOT_APPLICABLE = {
            'order-free Map view and rejects the iterating functions; not a pre/postcondition of one call.',
     'C07': 'totality of scan/parse/check/compile over all strings: &str/char iterators, Peekable token streams and mutual recursion '
            'over the grammar; Verus has no str byte reasoning or iterator-adapter specs, Kani would need an input bound of a few bytes.',
-    'C11': 'both Bristol functions interleave File/BufReader/writeln!/str::parse with the wire renumbering; no pure function to put a '
-           'contract on, no std::fs/io/fmt specs in Verus, no file-system model in Kani.',
+
 
 }
